@@ -3,12 +3,14 @@ import Librfn.Model.Pack
 /-! Line-protocol driver for the pack model: same ops and same canonical outputs as `harness/h_pack.c`.
 
 ops:  buf <n> <hex|->      allocate the buffer (n bytes with the given contents) and rf_pack_init it
+      bufp <n> <seed>      the same with the pattern `patByte seed i` (for buffers too large to spell out)
       init                 rf_pack_init again on the same buffer (rewind)
       pb <hex|->           rf_pack_bytes(src = these bytes)        pn <n>   rf_pack_bytes(NULL, n)
       s16le v | u16be v | u16le v | s32le v | u32le v              (v unsigned decimal)
       ub <n>  rf_unpack_bytes(dst, n)        us <n>  rf_unpack_bytes(NULL, n)
       uc | us8 | uu8 | uu16 | uu32
-every op answers one line `<result> c=<consumed> r=<remaining> buf=<hex image of the buffer>`. -/
+every op answers one line `<result> c=<consumed> r=<remaining> buf=<hex image of the buffer>`
+(`buf=#<crc32>` when the buffer has more than 64 bytes). -/
 namespace Librfn.Driver.Pack
 open Librfn.Driver Librfn.Model.Pack
 
@@ -32,15 +34,35 @@ def parseHexChars : List Char → Option (List UInt8)
 
 def parseHex (s : String) : Option (List UInt8) := if s = "-" then some [] else parseHexChars s.toList
 
+/-- The driver keeps the buffer image in an array and hands the model a memory *function* that reads it; after every
+    call the image is refreshed from the memory the model's `step` returned.  For buffers up to `smallLimit` bytes
+    every cell is re-read.  For larger buffers (histories that cross 2^16 requested bytes, 64 KiB buffers) only the
+    cells under the item (`[cur, cur+size)`, when it is a packer that fits) are re-read — the model leaves the others
+    alone by `C12.step_mem_eq` / `writeBytes_outside` — and four sentinel cells around that range are re-read and
+    compared, so a model that broke this frame property would be reported (`!! model-frame`). -/
 structure St where
-  mem : Mem
+  arr : Array UInt8
   pk : Pk
   ok : Bool      -- a buffer has been set up
 
 def base : Nat := 4096
-def init : St := ⟨fun _ => 0, Librfn.Model.Pack.init base 0, false⟩
+def smallLimit : Nat := 4096
+def init : St := ⟨#[], Librfn.Model.Pack.init base 0, false⟩
 
-def image (s : St) : String := hexOf (readBytes s.mem s.pk.base s.pk.size)
+def memOf (a : Array UInt8) : Mem := fun i => if base ≤ i then a.getD (i - base) 0 else 0
+
+/-- CRC-32 (IEEE 802.3, as zlib) of the image: what is printed for buffers of more than 64 bytes -/
+def crcByte (c : UInt32) (b : UInt8) : UInt32 := Id.run do
+  let mut x := c ^^^ b.toUInt32
+  for _ in [0:8] do
+    x := if x &&& 1 = 1 then (x >>> 1) ^^^ 0xEDB88320 else x >>> 1
+  return x
+def crc32 (a : Array UInt8) : UInt32 := (a.foldl crcByte 0xFFFFFFFF) ^^^ 0xFFFFFFFF
+
+def hex8 (v : UInt32) : String :=
+  String.ofList ((List.range 8).map fun k => hexDigit ((v.toNat / 16 ^ (7 - k)) % 16))
+
+def image (s : St) : String := if s.arr.size ≤ 64 then hexOf s.arr.toList else "#" ++ hex8 (crc32 s.arr)
 def tail (s : St) : String := s!" c={consumed s.pk} r={remaining s.pk} buf={image s}"
 
 def showOut : Out → String
@@ -48,11 +70,35 @@ def showOut : Out → String
   | .bytes l => "[" ++ hexOf l ++ "]"
   | .val v => s!"{v}"
 
+def isPacker : Op → Bool
+  | .packBytes _ | .packNull _ | .packS16le _ | .packU16be _ | .packU16le _ | .packS32le _ | .packU32le _ => true
+  | _ => false
+
+/-- the pattern `bufp n seed` fills a buffer with (position dependent, not periodic in 2^16) -/
+def patByte (seed i : Nat) : UInt8 := UInt8.ofNat ((i * 131 + (i / 256) * 17 + (i / 65536) * 29 + seed) % 256)
+
+def refresh (s : St) (m' : Mem) (op : Op) : Array UInt8 × Bool :=
+  let n := s.arr.size
+  if n ≤ smallLimit then ((Array.range n).map fun k => m' (base + k), true)
+  else
+    let lo := s.pk.cur
+    let hi := s.pk.cur + op.size
+    let a := if isPacker op && hi ≤ n then
+        (List.range op.size).foldl (fun (a : Array UInt8) k => a.set! (lo + k) (m' (base + lo + k))) s.arr
+      else s.arr
+    let sent := [0, lo - 1, hi, n - 1, n / 2].filter fun k => k < n ∧ ¬ (isPacker op ∧ hi ≤ n ∧ lo ≤ k ∧ k < hi)
+    (a, sent.all fun k => m' (base + k) == s.arr.getD k 0)
+
 def doOp (s : St) (op : Op) : St × List String :=
   if !s.ok then (s, ["bad-op"]) else
-  let r := step s.mem s.pk op
-  let s' := { s with mem := r.1, pk := r.2.1 }
-  (s', [showOut r.2.2 ++ tail s'])
+  let r := step (memOf s.arr) s.pk op
+  let (a, okf) := refresh s r.1 op
+  let s' := { s with arr := a, pk := r.2.1 }
+  (s', (if okf then [] else ["!! model-frame"]) ++ [showOut r.2.2 ++ tail s'])
+
+def newBuf (a : Array UInt8) : St × List String :=
+  let s' : St := ⟨a, Librfn.Model.Pack.init base a.size, true⟩
+  (s', ["-" ++ tail s'])
 
 def stepLine (s : St) (w : List String) : St × List String :=
   match w with
@@ -61,10 +107,11 @@ def stepLine (s : St) (w : List String) : St × List String :=
   | ["buf", n, h] =>
     match n.toNat?, parseHex h with
     | some n, some bs =>
-      if bs.length = n then
-        let s' : St := ⟨memOfList base bs, Librfn.Model.Pack.init base n, true⟩
-        (s', ["-" ++ tail s'])
-      else (s, ["bad-op"])
+      if bs.length = n then newBuf bs.toArray else (s, ["bad-op"])
+    | _, _ => (s, ["bad-op"])
+  | ["bufp", n, sd] =>
+    match n.toNat?, sd.toNat? with
+    | some n, some sd => newBuf ((Array.range n).map (patByte sd))
     | _, _ => (s, ["bad-op"])
   | ["init"] => if s.ok then let s' := { s with pk := Librfn.Model.Pack.init s.pk.base s.pk.size }; (s', ["-" ++ tail s']) else (s, ["bad-op"])
   | ["pb", h] => match parseHex h with | some bs => doOp s (.packBytes bs) | none => (s, ["bad-op"])
